@@ -336,7 +336,10 @@ class FGen:
                     n = persist["arrlen"][lhs]
                 c = rng.choice(["i", "j"])
                 ops.append(["call", [lhs], "<builtin>array", [["num", n]], {}, self.s()])
-                sc2 = dict(sc, counters=dict(sc["counters"], **{c: (0, n)}))
+                # (the fill value must not read the freshly made array itself: <builtin>array gives
+                # uninitialised storage)
+                sc2 = dict(sc, counters=dict(sc["counters"], **{c: (0, n)}),
+                           arrs={k: v for k, v in sc["arrs"].items() if k != lhs})
                 val = self.num_expr(sc2, rng.choice([0, 1, 2]))
                 if rng.random() < 0.3:
                     val = ["+", ["*", ["num", 0.5], ["var", c]], val if val[0] not in ("+", "-") else self.num_leaf(sc)]
